@@ -53,6 +53,9 @@ def U(universe, oracle, bounds, ref, level="exploration", tech=None):
     return (level, tech, universe + " Oracle: " + oracle, bounds, ref)
 
 CHECKS.update({
+ "C29": U("(a) 398 (quick) / 2,328 (thorough) generated programs whose token stream and statement boundaries are known from the generator's structured printer: EVERY single layout change (one of 6 block comments in every gap between two tokens, one of 3 line comments at every line end, every statement separator as `;` (`,` between match arms), a blank line at every statement boundary; all pairs of changes on short programs in thorough); (b) the 12 (quick) / 60 (thorough) shortest repository corpus programs with a block comment before every token and a line comment at every line end;",
+          "the compile verdict and the run observation (emits, output, end kind) equal those of the unchanged program.",
+          "Deviation 1 (pairs only on short programs); comments containing a newline, and `,`/newline flips of list separators, are not generated; error line numbers are not compared.", "DESIGN.md §3 C29"),
  "C01": U("the shared program universe U-prog (typed generator: expression trees with tracing calls, statement lists with loops/break/continue/return, functions/recursion/lambdas, data with aliasing and void components, matches; 5.6 k programs quick / 250 k thorough) plus the strata S-empty (operations on empty/singleton arrays), S-task (tasks capturing every kind of value), S-jump (break/continue/return/? in every operand position) and S-voidvariant, each program under EVERY uniform budget in {1,2,3,7,64,MAX};",
           "the run ends normally or with one of the four documented runtime errors: no Rust panic, no type-tag fault, no internal error; an operand-stack leak monitor compares the final stack depth after running a case's body once and three times (as a function and inlined as a block).",
           "Bounded generator depth; `break`/`continue` out of an operand position is an open known finding confined to S-jump.", "DESIGN.md §3 C01"),
